@@ -1,5 +1,5 @@
 (* C29: pubsub streams are opened once per link and subscriptions end cleanly. *)
-From Bifrost Require Import Lib.Base Lib.Lex gen.Pubsub Pubsub.Sub Pubsub.Proofs29 Pubsub.Proofs29Loop.
+From Bifrost Require Import Lib.Base Lib.Lex gen.Pubsub Pubsub.Sub Pubsub.LoopFine Pubsub.Proofs29 Pubsub.Proofs29Loop Pubsub.Proofs29Pass.
 
 (* for two different peers exactly one side opens the pubsub stream; the
    comparison operator is the one found in tracked-link.go; the base58 text of
@@ -32,36 +32,24 @@ Theorem c29_release : forall s st t1 t2,
 Proof. exact release_history. Qed.
 Print Assumptions c29_release.
 
-(* FULL statement of the last clause (kept as documentation, it is FALSE for the code as written):
-     forall l p ch, let s := lrun linit l in
-       lquiescent s -> In p (l_started s) -> nsubs ch (l_ch s) = 0 -> told (l_wire s) p ch = false.
-   Refuted by a Release that falls between the two lock regions of the loop body: *)
-Theorem c29_unsub_refuted :
-  exists l p ch,
-    let s := lrun linit l in
-    lquiescent s /\ In p (l_started s) /\ nsubs ch (l_ch s) = 0%nat /\ told (l_wire s) p ch = true.
-Proof. exact unsub_at_quiescence_refuted. Qed.
-Print Assumptions c29_unsub_refuted.
-
-(* what does hold, for all histories: unless such a release happened (ghost flag
-   of the model), every executing stream ends with Subscribe=false, or never
-   saw Subscribe=true, for every channel without a local subscription *)
-Theorem c29_unsub_partial : forall l p ch,
+(* last clause, for ALL interleavings of subscribe, release, new peer stream,
+   dropped stream, wake and loop body (the loop body is one lock region since
+   /repo commit 4585b8b): when the loop is idle with no wake pending, every
+   executing stream's last subscription entry for a channel without local
+   subscription is Subscribe=false, or it never was sent Subscribe=true *)
+Theorem c29_unsub : forall l p ch,
   let s := lrun linit l in
-  lquiescent s -> l_ghost s = false ->
-  In p (l_started s) -> nsubs ch (l_ch s) = 0%nat ->
-  told (l_wire s) p ch = false.
-Proof. exact unsub_at_quiescence_partial. Qed.
-Print Assumptions c29_unsub_partial.
-
-(* and for the loop body executed as ONE lock region (no release of m.mtx between
-   the incSessions pass and the sweep) the full statement holds for all
-   histories: this is the repaired design *)
-Theorem c29_unsub_atomic_pass : forall l p ch,
-  let s := lrun linit (expand l) in
   lquiescent s -> In p (l_started s) -> nsubs ch (l_ch s) = 0%nat -> told (l_wire s) p ch = false.
-Proof. exact unsub_at_quiescence_atomic_pass. Qed.
-Print Assumptions c29_unsub_atomic_pass.
+Proof. exact unsub_at_quiescence. Qed.
+Print Assumptions c29_unsub.
+
+(* for the record: with m.mtx released between the initial-set pass and the
+   sweep (the loop body before that commit, Pubsub/LoopFine.v) the statement
+   was false; the merged transition system has no step between the two *)
+Example c29_unsub_two_region_loop_was_wrong :
+  let s := Fine.lrun Fine.linit gap_trace in
+  Fine.lquiescent s /\ In 1%nat (Fine.l_started s) /\ nsubs 7 (Fine.l_ch s) = 0%nat /\ told (Fine.l_wire s) 1 7 = true.
+Proof. vm_compute. repeat split; auto. Qed.
 
 (* non-vacuity *)
 Example c29_opener_nonvacuous :
@@ -75,7 +63,7 @@ Example c29_release_nonvacuous :
 Proof. vm_compute. reflexivity. Qed.
 
 Example c29_unsub_nonvacuous :
-  let s := lrun linit [LSubscribe 7; LAddPeer 1; LInit; LSweep; LRelease 7; LWake; LInit; LSweep] in
-  lquiescent s /\ l_ghost s = false /\ In 1%nat (l_started s) /\ nsubs 7 (l_ch s) = 0%nat /\
+  let s := lrun linit [LSubscribe 7; LAddPeer 1; LPass; LRelease 7; LWake; LPass] in
+  lquiescent s /\ In 1%nat (l_started s) /\ nsubs 7 (l_ch s) = 0%nat /\
   In (1%nat, 7%nat, true) (l_wire s) /\ told (l_wire s) 1 7 = false.
 Proof. vm_compute. repeat split; auto 10. Qed.
